@@ -26,7 +26,7 @@ use std::{
     sync::atomic::{AtomicU64, Ordering},
 };
 
-use parking_lot::Mutex;
+use parking_lot::{Mutex, RwLock};
 use serde::{Deserialize, Serialize};
 use tracing::instrument;
 
@@ -92,6 +92,18 @@ pub struct SlabRouter {
     wal: Option<Mutex<TensorWal>>,
     /// Checkpoint counter for unique IDs.
     checkpoint_counter: AtomicU64,
+    /// Striped per-key locks that make operations on `emb:` keys atomic. Such an operation
+    /// touches the entity index, the embedding slab and the metadata slab in sequence;
+    /// without a common lock a concurrent reader could combine the vector of one write with
+    /// the metadata of another (or copy a vector while it is being overwritten).
+    emb_key_locks: Vec<RwLock<()>>,
+}
+
+/// Number of stripes in [`SlabRouter::emb_key_locks`].
+const EMB_KEY_LOCK_STRIPES: usize = 64;
+
+fn new_emb_key_locks() -> Vec<RwLock<()>> {
+    (0..EMB_KEY_LOCK_STRIPES).map(|_| RwLock::new(())).collect()
 }
 
 impl SlabRouter {
@@ -126,6 +138,7 @@ impl SlabRouter {
             ops_count: AtomicU64::new(0),
             wal: None,
             checkpoint_counter: AtomicU64::new(0),
+            emb_key_locks: new_emb_key_locks(),
         }
     }
 
@@ -160,6 +173,7 @@ impl SlabRouter {
             ops_count: AtomicU64::new(0),
             wal: Some(Mutex::new(wal)),
             checkpoint_counter: AtomicU64::new(0),
+            emb_key_locks: new_emb_key_locks(),
         })
     }
 
@@ -174,6 +188,7 @@ impl SlabRouter {
 
         match Self::classify_key(key) {
             KeyClass::Embedding => {
+                let _guard = self.emb_key_lock(key).write();
                 let entity_id = self.index.get_or_create(key);
                 // Extract vector from TensorValue if present; on dimension mismatch the
                 // vector lives in metadata only (this is fine)
@@ -223,6 +238,7 @@ impl SlabRouter {
 
         match Self::classify_key(key) {
             KeyClass::Embedding => {
+                let _guard = self.emb_key_lock(key).read();
                 if let Some(entity_id) = self.index.get(key) {
                     if let Some(vector) = self.embeddings.get(entity_id) {
                         let mut data = self.metadata.get(key).unwrap_or_default();
@@ -253,12 +269,15 @@ impl SlabRouter {
     pub fn delete(&self, key: &str) -> Result<(), SlabRouterError> {
         self.ops_count.fetch_add(1, Ordering::Relaxed);
 
+        let class = Self::classify_key(key);
+        let _guard = (class == KeyClass::Embedding).then(|| self.emb_key_lock(key).write());
+
         // Check if key exists first
         if !self.exists(key) {
             return Err(SlabRouterError::NotFound(key.to_string()));
         }
 
-        match Self::classify_key(key) {
+        match class {
             KeyClass::Embedding => {
                 if let Some(entity_id) = self.index.get(key) {
                     self.embeddings.delete(entity_id);
@@ -388,6 +407,7 @@ impl SlabRouter {
             ops_count: AtomicU64::new(0),
             wal: None,
             checkpoint_counter: AtomicU64::new(0),
+            emb_key_locks: new_emb_key_locks(),
         }
     }
 
@@ -413,6 +433,7 @@ impl SlabRouter {
             ops_count: AtomicU64::new(0),
             wal: Some(Mutex::new(wal)),
             checkpoint_counter: AtomicU64::new(0),
+            emb_key_locks: new_emb_key_locks(),
         })
     }
 
@@ -700,6 +721,16 @@ impl SlabRouter {
                 .map_err(|e| SlabRouterError::WalError(format!("Failed to sync WAL: {e}")))?;
         }
         Ok(())
+    }
+
+    /// The stripe lock guarding the multi-slab state of an `emb:` key.
+    fn emb_key_lock(&self, key: &str) -> &RwLock<()> {
+        use std::hash::{Hash, Hasher};
+        let mut hasher = std::collections::hash_map::DefaultHasher::new();
+        key.hash(&mut hasher);
+        #[allow(clippy::cast_possible_truncation)] // only the low bits select a stripe
+        let stripe = hasher.finish() as usize % EMB_KEY_LOCK_STRIPES;
+        &self.emb_key_locks[stripe]
     }
 
     /// Classify a key to determine which slab should handle it.
